@@ -49,6 +49,24 @@ def search(tier, seed):
             if verdict(impl) != "INC":
                 seen.add(h)
         samples.append("%s: %s -> %s" % (stream, C.show_input(rows[len(rows) // 3][0], 60), verdict(rows[len(rows) // 3][1])))
+    # responses read off the translated grammar, their prefixes, and each with one byte changed
+    sents = C.grammar_sentences()
+    if sents:
+        cases = []
+        for h in sents:
+            cases.append(h)
+            for k in range(2, len(h), 2):
+                cases.append(h[:k])
+                cases.append(h[:k] + ("00" if h[k:k + 2] != "00" else "ff") + h[k + 2:])
+                cases.append(h[:k] + "28" + h[k:])
+        rows = C.parse_stream("corpus", seed, 0, stdin="\n".join(cases) + "\n")
+        for h, impl, _ in rows:
+            total += 1
+            if verdict(impl) not in ("OK", "INC", "ERR"):
+                return total, "the parser did not return one of the three verdicts:\ninput %s\nresult %s" % (C.show_input(h), impl[:100]), samples, len(seen)
+            if verdict(impl) != "INC":
+                seen.add(h)
+        samples.append("grammar sentences: %d responses read off the translated grammar; with prefixes and one-byte changes %d inputs" % (len(sents), len(cases)))
     # the same kinds of bytes through the framed client codec, under many chunkings: the codec must not panic either
     from . import clientlib as L
     rows = L.run_stream("framed", seed, 12 if tier == "quick" else 150, prop=PROP)
